@@ -145,6 +145,34 @@ def nb_pair(gen, cls=None, minor=None):
         else:
             v["image/png"] = v["image/png"] + "\n"
         rec.append("n=%d" % n)
+        if r.random() < 0.5:
+            # base64-LOOKING text where text is diffed as text: a pasted key in a source, a token in metadata, a stream
+            # line - edited by a few characters, possibly spanning several lines
+            blob = b64(r, r.choice([60, 90, 200]))
+            if r.random() < 0.5:
+                blob = "\n".join(blob[i:i + 76] for i in range(0, len(blob), 76))
+            where = r.choice(["source", "metadata", "stream", "text/plain"])
+            ca, cb = a["cells"][0], b["cells"][0]
+            if where == "source":
+                ca["source"] = cb["source"] = blob
+            elif where == "metadata":
+                ca["metadata"]["token"] = cb["metadata"]["token"] = blob
+            elif where == "stream":
+                for c_ in (ca, cb):
+                    c_["outputs"].append({"output_type": "stream", "name": "stdout", "text": blob})
+            else:
+                ca["outputs"][0]["data"]["text/plain"] = cb["outputs"][0]["data"]["text/plain"] = blob
+            j = r.randrange(len(blob) - 4)
+            nb_ = blob[:j] + ("AAAA" if blob[j:j + 4] != "AAAA" else "BBBB") + blob[j + 4:]
+            if where == "source":
+                cb["source"] = nb_
+            elif where == "metadata":
+                cb["metadata"]["token"] = nb_
+            elif where == "stream":
+                cb["outputs"][-1]["text"] = nb_
+            else:
+                cb["outputs"][0]["data"]["text/plain"] = nb_
+            rec.append("base64-looking-" + where)
     elif cls == "pointer_only":
         o = {"output_type": "execute_result", "execution_count": 1, "metadata": {},
              "data": {"text/plain": "<matplotlib.lines.Line2D at 0x7f%06xa0>" % r.randrange(16 ** 6)}}
